@@ -29,7 +29,7 @@ from typing import Dict, List, Optional, Set, Tuple
 import networkx as nx
 
 from ..cfg import CFG, Node
-from ..deps import dependence, reads, root_name, statement_defs, subtree_nodes
+from ..deps import value_reads as value_reads_, dependence, reads, root_name, statement_defs, subtree_nodes
 from ..index import AnalysisError, FunctionInfo, ProgramIndex, dotted, norm, short, walk_body
 from ..report import Finding, Report
 
@@ -147,6 +147,31 @@ def check_minres(idx: ProgramIndex, rep: Report):
         raise AnalysisError(f"minres: roles rhs_norm / rhs_is_zero not found (rhs_norm={RHSN}, rhs_is_zero={RZ})")
     rep.analysed["minres_roles"] = {"rhs_norm": RHSN, "rhs_is_zero": RZ, "solution": sol}
     F = fname(fn0)
+
+    # "linear in b": which columns count as zero must be decided column by column against a threshold that does not depend
+    # on the right-hand side (a threshold relative to the largest column zeroes small columns of a badly scaled batch)
+    rep.rule("C11.M8", "the zero-column threshold does not depend on the right-hand side", floor=1)
+    for st in body[:li]:
+        for x in ast.walk(st):
+            if isinstance(x, ast.Assign) and len(x.targets) == 1 and isinstance(x.targets[0], ast.Name) and x.targets[0].id == RZ \
+                    and _is_lt_of(x.value, RHSN):
+                v = x.value
+                thr = v.comparators[0] if isinstance(v, ast.Compare) else (v.args[1] if (dotted(v.func) or "").startswith("torch.") and len(v.args) > 1
+                                                                           else (v.args[0] if v.args else None))
+                if thr is None:
+                    continue
+                tdeps = set()
+                for nm in value_reads_(thr):
+                    tdeps |= pre.get(nm, set()) | {nm}
+                sample = {"zero_test": short(x, 70), "threshold": short(thr, 40), "threshold_depends_on": sorted(tdeps & {"rhs", RHSN})}
+                if tdeps & {"rhs", RHSN}:
+                    rep.bad("C11.M8", Finding(PROP, "C11.M8", F, "zero-column threshold depends on the right-hand side",
+                                              f"minres: `{short(x, 70)}` compares each column norm with a threshold computed from the right-hand "
+                                              "side itself: which columns are treated as zero depends on the other columns of the same call, so "
+                                              "the solution is not linear in b (a small column next to a large one is returned as zero)",
+                                              fn.loc(x)), sample)
+                else:
+                    rep.ok("C11.M8", sample)
 
     # ---- M1 / M2
     rep.rule("C11.M1", "zero right-hand sides give a zero solution", floor=1)
